@@ -188,6 +188,9 @@ def run(P, rep, tier):
                         'R14.14 / R14.15: stdio as ISO C specifies it - a read after end of file or error delivers nothing; ferror/feof report the flags; the data of an output stream reaches the file in fflush() or, '
                         'when nothing flushed before, inside fclose(); a flush that was checked leaves nothing for fclose() to write (failures of close(2) itself are not modelled); every stream opened for writing has '
                         'buffered data; at most two reads deliver data before the input ends or fails; memory streams do not fail; a `for (;;)` loop is followed for three iterations',
+                        'R14.16: the inputs of a command line are its operands as written (names are compared as strings, as cc does; links and `./` spellings are not resolved); a cc1 process gets the '
+                        'argument vector R14.8 (handover) establishes; the external assembler and linker refuse an output that is one of their own input operands without writing it '
+                        '(GNU as: "input and output files are the same", GNU ld: "input file is the same as output file"), so only outputs that differ from the operands of the stage itself can destroy an input',
                         'R14.13: decided structurally per function and stream variable (no path sensitivity): ferror/fflush/fclose on the variable inside an if-condition whose branch returns or ends the process, '
                         'in the function itself or in a program function it passes the stream to; standard output closed at exit is not covered']
     cg = L.CallGraph(P)
@@ -205,6 +208,7 @@ def run(P, rep, tier):
              ('R14.11', lambda: r1411(P, u, rep, cg, facts)),
              ('R14.7', lambda: r147(P, rep, cg)),
              ('R14.8', lambda: r148(P, u, rep, cg, facts)),
+             ('R14.16', lambda: r1416(P, u, rep, cg, facts)),
              ('R14.9', lambda: r149(P, rep, cg, reach_main, facts)),
              ('R14.13', lambda: r1413(P, rep, cg, reach_main)),
              ('R14.14/15', lambda: r14_stream_paths(P, rep, cg, reach_main, facts))]
@@ -1843,6 +1847,213 @@ _CC1_CMDLINES = [
     ('c+MD-xc-dotdir-plain', ['-MD', '-c', '-xc'], 'sub.d/plain', _ASM_T, [_ASM_T, 'plain.d']),
     ('S+MD-parent-dir', ['-MD', '-S'], '../src.d/unit.v1.c', 'unit.v1.s', ['unit.v1.s', 'unit.v1.d']),
 ]
+
+
+# ================================================================= R14.16 ===
+# "an invocation does not destroy what it was given": no process of the invocation creates/truncates a file whose name
+# is one of the inputs of the command line.  The name of an output can coincide with an input in two ways: the operand of
+# `-o` names an input (`-c -o x.c x.c`, `-o main.c main.c`), or the name DERIVED from the input (last suffix replaced) is
+# the input itself because -x gave the file another language than its suffix says (`-xc -S unit.s`, `-xc -c unit.o`).
+# cc rejects both ("input file 'x' is the same as output file") before anything runs.  Decided for concrete command lines
+# through the real option parser, every mode x both ways, over EVERY path (a truncation followed by a diagnostic has
+# destroyed the input as well): the files the driver hands to a stage as output, and - composed through the argument
+# vector run_cc1 builds (R14.8 handover) - the files every cc1 process opens for writing.
+_S1, _OB1 = 'unit.v1.s', 'unit.v1.o'
+_SAME_CMDLINES = [
+    # label, options, inputs
+    ('S-xc-derived', ['-S', '-xc'], [_S1]),                      # <stem>.s of a C input named *.s
+    ('c-xc-derived', ['-c', '-xc'], [_OB1]),                     # <stem>.o of a C input named *.o
+    ('c-xasm-derived', ['-c', '-x', 'assembler'], [_OB1]),       # ... of an assembler input named *.o
+    ('c+o', ['-c', '-o', _C1], [_C1]),
+    ('c+o-asm', ['-c', '-o', _A1], [_A1]),
+    ('S+o-joined', ['-S', '-o' + _C2], [_C2]),
+    ('E+o', ['-E', '-o', _C1], [_C1]),
+    ('M+o', ['-M', '-o', _C2], [_C2]),
+    ('link+o-second-input', ['-o', _C2], [_C1, _C2]),
+    ('link+o-object', ['-o', _O1], [_C1, _O1]),
+]
+
+
+_SAME_CONTROLS = [
+    ('S-stdin-to-stdout', ['-S', '-o', '-', '-xc'], ['-']),
+    ('E-stdin-to-stdout', ['-E', '-o-', '-xc'], ['-']),
+    ('c+o-same-stem', ['-c', '-o', 'net.v6.o'], [_C2]),
+    ('S-xc-other-suffix', ['-S', '-xc'], [_OB1]),                # unit.v1.o -> unit.v1.s
+]
+
+
+def _opened_for_writing(ctx):
+    """[(name value, line)] of the files a path creates / opens for writing"""
+    res = []
+    for e in L.calls_of(ctx):
+        name, args = e[1], e[2]
+        if not (name in ('fopen', 'fopen64') or name in PATH_CREATE):
+            continue
+        mode = args[1] if len(args) > 1 else None
+        if name.startswith('fopen') and isinstance(mode, str) and not (mode[:1] in ('w', 'a') or '+' in mode):
+            continue
+        if name in ('open', 'open64', 'openat') :
+            fl = args[2 if name == 'openat' else 1] if len(args) > (2 if name == 'openat' else 1) else None
+            if isinstance(fl, int) and not isinstance(fl, bool) and not (fl & (0o1 | 0o2 | 0o100 | 0o1000)):
+                continue        # O_RDONLY without O_CREAT / O_TRUNC
+        k = 1 if name in ('openat', 'rename', 'link', 'symlink') else 0        # (rename/link/symlink: the second name is the one that is replaced)
+        res.append((args[k] if len(args) > k else None, e[3]))
+    return res
+
+
+def r1416(P, u, rep, cg, facts):
+    rep.rule('R14.16', 'no process of an invocation creates or truncates a file that is one of the inputs of the command line: when the operand of -o, or the output name derived from an input whose language '
+                       'was chosen by -x, is the name of an input, the command line is refused (or the file left alone) on every path - the driver hands no stage that name as its output and no cc1 process '
+                       'it starts opens it for writing', floor=len(_SAME_CMDLINES))
+    if 'parse_args' not in u.functions or any(f not in u.functions for f in SUBPROC):
+        rep.undecided('R14.16', '%s:main:same-file:anchors' % U, 'parse_args or a stage function (%s) vanished: command lines cannot be interpreted' % '/'.join(SUBPROC))
+        return
+    tmp_fns = sorted(facts.get('tmp_fns', ()))
+
+    def m_tmp(it, ctx, n, args):
+        s = Obj(None, lazy=False, label=ctx.fresh('tmp'))
+        ctx.emit('call', 'create_tmpfile', args, n.line, s)
+        return s
+    models = dict(L.string_models())
+    models['strarray_push'] = _m_strarray_push_store
+    for t in tmp_fns:
+        models[t] = m_tmp
+    opaque = [f for f in u.functions if f in _driver_cut(u, facts) and f != 'parse_args']
+    # the cc1 role (as in R14.8): everything that cannot create a file is a call, loops that create nothing are sliced
+    terminators = set(L.HARD_EXIT) | set(L.SOFT_EXIT) | set(L.ERROR_FNS) | {'__assert_fail'}
+    file_fns = {'fopen', 'fopen64'} | set(PATH_CREATE) | set(TMP_CREATE)
+    creators = cg.reaches(file_fns)
+    pure = _pure_string_fns(u, cg)
+    opaque_cc1 = [f for f in u.functions if f not in creators and f not in pure and f not in ('cc1', 'main', 'parse_args')]
+    models_cc1 = dict(L.string_models())
+    models_cc1['strarray_push'] = _m_strarray_push_store
+    w = _where(u.fn('main'))
+    cc1_cache = {}
+
+    def cc1_writes(words, inp, outp):
+        """names (values) a cc1 process started for `words` on input inp / output outp opens for writing, over all paths;
+        None: not decidable"""
+        k = (tuple(words), inp, outp)
+        if k in cc1_cache:
+            return cc1_cache[k]
+        vec = list(words) + ['-cc1', '-cc1-input', inp] + (['-cc1-output', outp] if outp else [])
+        argv = Arr([L.cbuf(x, 'argv') for x in vec] + [0], label='argv')
+        res = []
+        try:
+            it = L.make_interp(P, u, opaque=opaque_cc1, extra_models=models_cc1, globals_=_zero_statics(u, {}), loop_limit=1)
+            L.slice_loops(it, u, creators | terminators | file_fns)
+            ps = it.explore('main', lambda ctx: [len(vec), _Ref(ElemPlace(argv, 0))], max_paths=5000)
+        except AnalysisBroken:
+            cc1_cache[k] = None
+            return None
+        entered = False
+        for ctx, out in ps:
+            # (the process took the cc1 role: a front-end phase was called - with or without a file opened afterwards)
+            entered = entered or bool(L.calls_of(ctx, FRONT_PHASES)) or any(e[1] in ('fopen', 'fopen64') for e in L.calls_of(ctx))
+            res += _opened_for_writing(ctx)
+        cc1_cache[k] = res if (ps and entered) else None
+        return cc1_cache[k]
+
+    for label, opts, ins in _SAME_CMDLINES:
+        key0 = '%s:main:same-%s' % (U, label)
+        words = ['chibicc'] + opts + ins
+        shown = ' '.join(words)
+        victims = set(ins)
+        try:
+            it = L.make_interp(P, u, opaque=opaque, extra_models=models, globals_=_zero_statics(u, {}), loop_limit=2)
+            ps = it.explore('main', lambda ctx: [len(words), _Ref(ElemPlace(Arr([L.cbuf(x, 'argv') for x in words] + [0], label='argv'), 0))], max_paths=500)
+        except AnalysisBroken as e:
+            rep.undecided('R14.16', key0 + ':interpretation', str(e))
+            continue
+        if not ps:
+            rep.undecided('R14.16', key0 + ':no-path', 'no path of main for `%s`' % shown)
+            continue
+        hits = []       # (role, name, where)
+        open_ = None
+        refused = 0
+        for ctx, out in ps:
+            evs = [e for e in L.calls_of(ctx) if e[1] in SUBPROC or e[1] == 'create_tmpfile']
+            stages = [e for e in evs if e[1] in SUBPROC]
+            if stages and ctx.decisions:
+                open_ = open_ or ('state-not-concrete', '`%s`: the path through parse_args and main depends on values the model leaves open (%s)' % (shown, ' / '.join(_fmt_path(ctx, 3))))
+                continue
+            tmps = [e[4] for e in evs if e[1] == 'create_tmpfile']
+            for e in stages:
+                name, args = e[1], e[2]
+                wh = '%s:%d' % (U, e[3])
+                outs = []
+                own = set()     # operands the external tool reads: GNU as / ld refuse an output that is one of them, nothing is written
+                if name == 'run_cc1' and len(args) >= 4:
+                    pass        # (what a cc1 process writes is decided below from its own code: it may refuse the name itself)
+                elif name == 'assemble' and len(args) >= 2:
+                    outs = [('assembler-output', args[1])]
+                    own = {_name_of(args[0])}
+                elif name == 'run_linker' and len(args) >= 2:
+                    outs = [('linker-output', args[1])]
+                    a0 = args[0]
+                    own = set(_name_of(v) for v in (a0.meta.get('pushed', []) if isinstance(a0, Obj) else []))
+                else:
+                    open_ = open_ or ('stage-arguments', '`%s`: %s is called with %d arguments: the output operand cannot be told' % (shown, name, len(args)))
+                for role, v in outs:
+                    if any(v is t for t in tmps) or v is None or (isinstance(v, int) and v == 0):
+                        continue
+                    nm = _name_of(v)
+                    if nm is None:
+                        open_ = open_ or ('%s-not-concrete' % role, '`%s`: the %s is not a concrete name' % (shown, role))
+                    elif nm in victims and nm not in own:
+                        hits.append((role, nm, wh))
+                    elif nm in victims:
+                        refused += 1
+                if name == 'run_cc1' and len(args) >= 4:
+                    inp = _name_of(args[2])
+                    o = args[3]
+                    outp = _ASM_T if any(o is t for t in tmps) else (None if (o is None or (isinstance(o, int) and o == 0)) else _name_of(o))
+                    if inp is None or (outp is None and not (o is None or (isinstance(o, int) and o == 0))):
+                        open_ = open_ or ('cc1-operands-not-concrete', '`%s`: the operands of run_cc1 are not concrete names' % shown)
+                        continue
+                    got = cc1_writes(words, inp, outp)
+                    if got is None:
+                        open_ = open_ or ('cc1-role', '`%s`: the cc1 process for input %s could not be interpreted up to the files it opens' % (shown, inp))
+                        continue
+                    for v, line in got:
+                        nm = _name_of(v)
+                        if nm is None:
+                            open_ = open_ or ('cc1-opened-name-not-concrete', '`%s`: the cc1 process opens a file whose name is not concrete for writing' % shown)
+                        elif nm in victims:
+                            hits.append(('cc1-process', nm, '%s:%d' % (U, line)))
+        if hits:
+            order = ('cc1-process', 'assembler-output', 'linker-output')
+            hits.sort(key=lambda h: order.index(h[0]))
+            role, nm, wh = hits[0]
+            rep.ob('R14.16', key0 + ':input-overwritten-by-%s' % role, False,
+                   '`%s`: the input file %r is opened for writing (%s%s): the command line is accepted and the file the user gave is replaced by the output (cc: "input file is the same as output file", nothing runs)'
+                   % (shown, nm, role, '; also ' + ', '.join(sorted(set(h[0] for h in hits[1:]) - {role})) if set(h[0] for h in hits[1:]) - {role} else ''), where=wh)
+        elif open_:
+            rep.undecided('R14.16', key0 + ':' + open_[0], open_[1], where=w)
+        else:
+            rep.ob('R14.16', key0 + ':inputs-preserved', True, '', where=w)
+    # ... and the refusal is not wider than the clause: `-` is the standard input / the standard output, not a file
+    # (`cc -S -o - -xc -` is the idiom for a filter), and an output that merely shares its stem with the input is fine
+    for label, opts, ins in _SAME_CONTROLS:
+        key0 = '%s:main:same-control-%s' % (U, label)
+        words = ['chibicc'] + opts + ins
+        shown = ' '.join(words)
+        try:
+            it = L.make_interp(P, u, opaque=opaque, extra_models=models, globals_=_zero_statics(u, {}), loop_limit=2)
+            ps = it.explore('main', lambda ctx: [len(words), _Ref(ElemPlace(Arr([L.cbuf(x, 'argv') for x in words] + [0], label='argv'), 0))], max_paths=500)
+        except AnalysisBroken as e:
+            rep.undecided('R14.16', key0 + ':interpretation', str(e))
+            continue
+        started = [c for c, o in ps if L.calls_of(c, 'run_cc1')]
+        refused = [(c, o) for c, o in ps if o[0] == 'noreturn' and o[1] in L.ERROR_FNS and not L.calls_of(c, SUBPROC) and not c.decisions]
+        if refused and not started:
+            o = refused[0][1]
+            rep.ob('R14.16', key0 + ':refused', False, '`%s` is refused (%s%r): the command line names no file twice (`-` is the standard input and the standard output)'
+                   % (shown, o[1], tuple(a for a in o[2][:2] if isinstance(a, str))), where='%s:%d' % (U, o[3]))
+        elif started and not any(c.decisions for c in started):
+            rep.ob('R14.16', key0 + ':accepted', True, '', where=w)
+        else:
+            rep.undecided('R14.16', key0 + ':paths', '`%s`: no concrete path of main reaches run_cc1 or a diagnostic' % shown, where=w)
 
 
 # ================================================================= R14.13 ===
